@@ -81,6 +81,15 @@ func genC11(t *rapid.T) C11Case {
 			}
 		}
 	}
+	// the empty key is a legal key and the smallest one: rank 0 wherever it is stored
+	if rapid.IntRange(0, 3).Draw(t, "emptyKey") == 0 {
+		pos := rapid.IntRange(0, len(c.Ops)).Draw(t, "emptyPos")
+		c.Ops = append(c.Ops[:pos:pos], append([]C11Op{{Kind: "set", K: ""}}, c.Ops[pos:]...)...)
+		if rapid.Bool().Draw(t, "emptyRemoved") {
+			pos2 := rapid.IntRange(pos+1, len(c.Ops)).Draw(t, "emptyPos2")
+			c.Ops = append(c.Ops[:pos2:pos2], append([]C11Op{{Kind: "remove", K: ""}}, c.Ops[pos2:]...)...)
+		}
+	}
 	if rapid.Bool().Draw(t, "finalSave") {
 		c.Ops = append(c.Ops, C11Op{Kind: "save"})
 	}
@@ -190,8 +199,12 @@ func runC11(c C11Case) (v *Violation, st c11Stats) {
 				return viol("rank", "%s: GetByIndex(%d) out of range (size %d) = %q,%q", name, oob, sz, k, v2)
 			}
 		}
-		if idx, v2, err := it.GetWithIndex([]byte("a")); err != nil || v2 != nil || idx != 0 {
-			return viol("rank", "%s: GetWithIndex(below min)=%d,%q,%v", name, idx, v2, err)
+		below := int64(0)
+		if _, ok := kv[""]; ok {
+			below = 1 // the empty key sorts before everything
+		}
+		if idx, v2, err := it.GetWithIndex([]byte("a")); err != nil || v2 != nil || idx != below {
+			return viol("rank", "%s: GetWithIndex(below the k-keys)=%d,%q,%v want %d", name, idx, v2, err, below)
 		}
 		if idx, v2, err := it.GetWithIndex([]byte("z")); err != nil || v2 != nil || idx != sz {
 			return viol("rank", "%s: GetWithIndex(above max)=%d,%q,%v want %d", name, idx, v2, err, sz)
